@@ -1,6 +1,7 @@
 import ast
 import keyword
 import re
+import unicodedata
 from collections.abc import MutableMapping
 from typing import Union
 
@@ -86,12 +87,26 @@ def sanitize_variable_name(
         template: A template to use for sanitized names, which is mainly useful
             if you need to undo the sanitization by string replacement.
     """
-    if template == "{}" and name.isidentifier() and not keyword.iskeyword(name):
+    if (
+        template == "{}"
+        and name.isidentifier()
+        and not keyword.iskeyword(name)
+        and unicodedata.normalize("NFKC", name) == name
+    ):
         return name
 
     # Compute recognisable basename
-    base_name = "".join([char if re.match(r"\w", char) else "_" for char in name])
-    if not base_name or base_name[0].isdigit() or keyword.iskeyword(base_name):
+    # (keeping only the characters that Python keeps as they are in identifiers)
+    base_name = "".join(
+        [
+            char
+            if ("_" + char).isidentifier()
+            and unicodedata.normalize("NFKC", char) == char
+            else "_"
+            for char in name
+        ]
+    )
+    if not base_name.isidentifier() or keyword.iskeyword(base_name):
         base_name = "_" + base_name
 
     # Verify new name is not in env already, and if not add a random suffix.
